@@ -127,10 +127,12 @@ def check_group(ctx, case, schedules=None, tag_prefix=""):
             factory = (lambda ops: (lambda sim: detsim.scripted(ops, finish=True)))(schedules[j])
         else:
             p = pers[(j + rng.randrange(len(pers))) % len(pers)] if j else "eager"
-            factory = (lambda p: (lambda sim: CS.random_chooser(rng, p, 0.0)))(p)
+            pc = case.get("p_complete", 0.0) if j else 0.0        # the first schedule of a group never fires the hook
+            factory = (lambda p, pc: (lambda sim: CS.random_chooser(rng, p, 0.0, p_complete=pc)))(p, pc)
         try:
             res = CS.run_real(case["template"], scripts if scripts is not None else mk_scripts, factory,
-                              cont=case.get("cont", ()), real=bool(case.get("real")))
+                              cont=case.get("cont", ()), real=bool(case.get("real")),
+                              verbose=bool(case.get("verbose")) and j % 2 == 1)
         except Exception as exc:  # noqa
             ctx.tag(tag_prefix + "build-error:" + type(exc).__name__)
             return None
@@ -184,6 +186,19 @@ def check_group(ctx, case, schedules=None, tag_prefix=""):
         tags.append("has:later-stage-consumer-of-nonfinished-producer")
     if racy_observers(info, expected):
         tags.append("has:racy-observer")
+    if any(c["isRepeat"] and any(comps_[p]["stage"] < c["stage"] for p in c["preds"]) for c in comps_):
+        tags.append("has:repeating-consumer-of-earlier-stage-producer")
+    if any(c["isRepeat"] and c["preds"] and all(comps_[p]["stage"] < c["stage"] for p in c["preds"]) for c in comps_):
+        tags.append("has:repeating-consumer-with-earlier-stage-producers-only")
+    for r in runs:
+        if any(comps_[i_]["isRepeat"] and views and all(v is not None for (_p, v, _s) in views)
+               for i_, views in r.launches):
+            tags.append("observer-staged-in-after-all-its-producers-ended")
+            break
+    if case.get("p_complete"):
+        tags.append("group-with-completion-hook")
+    if case.get("verbose"):
+        tags.append("logging:enabled-down-to-level-1-in-every-second-schedule")
     if len(set(common.canon(f) for f in finals)) > 1:
         tags.append("final-maps-differ-between-schedules")
     for st in sorted(set(expected)):
@@ -193,10 +208,15 @@ def check_group(ctx, case, schedules=None, tag_prefix=""):
     ctx.tag("schedules-run", len(runs))
     ctx.tag("ops-compared", sum(len(r.ops) for r in runs))
     # ---- oracle -----------------------------------------------------------------------------
-    for r in runs:
+    hooked = [any(op[0] == "complete" for op in r.ops) for r in runs]
+    for r, hk in zip(runs, hooked):
+        if hk:
+            ctx.tag("schedules-with-completion-hook")
         if r.result == "stopped":
-            ctx.fail("stage-loop-did-not-terminate", full, {"ops": len(r.ops), "final": r.final,
-                                                           "results": r.results})
+            ctx.fail("stage-loop-did-not-terminate", full,
+                     {"ops": len(r.ops), "final": r.final, "results": r.results, "done": r.done,
+                      "refs": detail["refs"], "live": r.live, "can_exit": r.can_exit, "told": r.told,
+                      "hook": CS.hook_report(r), "schedule": r.ops})
             continue
         n_run = len(r.results)                      # stages 0 .. n_run-1 were run to the end of run()
         in_run = [stage_of[i] < n_run for i in range(n)]
@@ -227,6 +247,13 @@ def check_group(ctx, case, schedules=None, tag_prefix=""):
                    (st not in ("failed", "shutdown", expected[i], own[i]) or (st == "failed" and own[i] != "failed"))]
             if bad:
                 ctx.fail("failure:component-not-in-rule-state-or-shutdown", full, dict(detail, final=r.final, bad=bad))
+        elif hk:
+            # the package declared a stage complete: what was still active in it was shut down (like a kill, this is
+            # outside "a given exit reason for every task execution"); what remains of the property: termination and
+            # exactly one final state (above), and every final state is the component's own outcome or shut-down
+            bad = [i for i, st in enumerate(r.final) if st in CS.FINAL and st not in ("shutdown", own[i])]
+            if bad:
+                ctx.fail("hook:component-neither-in-own-state-nor-shutdown", full, dict(detail, final=r.final, bad=bad))
         else:
             if must_fail:
                 ctx.fail("failure:no-component-failed", full, dict(detail, final=r.final, result=r.results))
@@ -237,7 +264,8 @@ def check_group(ctx, case, schedules=None, tag_prefix=""):
         if ujf and not any(stage_of[i] in ujf for i in failed):
             ctx.fail("run-reports-failure-without-failed-component", full, dict(detail, final=r.final,
                                                                                result=r.results))
-    if not may_fail and len(set(common.canon(r.final) for r in runs if r.result != "stopped")) > 1:
+    if not may_fail and len(set(common.canon(r.final) for r, hk in zip(runs, hooked)
+                                if r.result != "stopped" and not hk)) > 1:
         ctx.fail("final-state-depends-on-schedule", full, detail)
     # ---- correspondence ---------------------------------------------------------------------
     reqs = []
@@ -278,7 +306,8 @@ def check_group(ctx, case, schedules=None, tag_prefix=""):
 def gen_case(rng, k):
     template, cont = CS.gen_workflow(rng)
     return {"template": template, "cont": cont, "scripts": None, "seed": rng.randrange(1 << 30),
-            "flavour": None, "k": k, "real": rng.random() < 0.35}
+            "flavour": None, "k": k, "real": rng.random() < 0.35,
+            "p_complete": rng.choice([0, 0, 0, 0.04, 0.1]), "verbose": rng.random() < 0.1}
 
 
 # first entry = minimal input of the known finding (rediscovered by the generator as well): c1 exits with a reason
@@ -299,6 +328,35 @@ CORPUS = [
                   {"name": "c1", "stage": 0, "refs": [0], "wa": {"shutdownOn": ["KnownIssue"]}},
                   {"name": "c2", "stage": 0, "refs": [1], "wa": {"repeatInterval": 1}}],
      "scripts": {"stage0.c1": ["KnownIssue"], "stage0.c2": ["Success"]}, "seed": 7, "k": 8},
+    # c1 waits for c0 when the package's IsStageComplete hook answers True: both must end SHUTDOWN and RECORDED (before
+    # the repair fixes/C02-completion-hook-unstaged.diff c1 was finish()ed without the controller observing it and the
+    # loop of run() never ended: Witness/C02.lean old_hook_strands_unstaged_component)
+    {"template": [{"name": "c0", "stage": 0, "refs": [], "wa": {}},
+                  {"name": "c1", "stage": 0, "refs": [0], "wa": {}}],
+     "scripts": {}, "seed": 21, "k": 1,
+     "schedules": [[["sched"], ["sched"], ["complete", 0], ["exit", 0], ["fin", 0], ["fin", 1]]]},
+    # the hook fires when every component of the stage is staged in: the stage ends, everything shut down
+    {"template": [{"name": "c0", "stage": 0, "refs": [], "wa": {}},
+                  {"name": "c1", "stage": 0, "refs": [0], "wa": {"repeatInterval": 1}},
+                  {"name": "c2", "stage": 1, "refs": [1], "wa": {}}],
+     "cont": [0], "scripts": {}, "seed": 22, "k": 1,
+     "schedules": [[["sched"], ["sched"], ["sched"], ["complete", 0], ["exit", 1], ["exit", 0], ["fin", 1], ["fin", 0],
+                    ["next"], ["sched"], ["sched"], ["fin", 2]]]},
+    # an observer that is staged in after ALL its producers ended (stage1.c1 has no inputs: it runs and ends while
+    # stage 0 is current; c2 = stage1.c2 observes it and consumes stage0.c0): its engine must be told at once.
+    # Components: 0 = stage0.c0, 1 = stage1.c1, 2 = stage1.c2
+    {"template": [{"name": "c0", "stage": 0, "refs": [], "wa": {}},
+                  {"name": "c1", "stage": 1, "refs": [], "wa": {}},
+                  {"name": "c2", "stage": 1, "refs": [0, 1], "wa": {"repeatInterval": 1}}],
+     "cont": [], "scripts": {}, "seed": 23, "k": 2,
+     "schedules": [
+         [["sched"], ["sched"], ["exit", 1], ["pm", 1], ["fin", 1], ["exit", 0], ["pm", 0], ["fin", 0], ["next"],
+          ["sched"], ["sched"], ["exit", 2], ["pm", 2], ["fin", 2]],
+         [["sched"], ["sched"], ["exit", 0], ["pm", 0], ["fin", 0], ["next"], ["sched"], ["sched"], ["exit", 1],
+          ["pm", 1], ["exit", 2], ["pm", 2], ["fin", 1], ["fin", 2]]]},
+    {"template": [{"name": "c0", "stage": 0, "refs": [], "wa": {}},
+                  {"name": "c1", "stage": 1, "refs": [0], "wa": {"repeatInterval": 1}}],
+     "cont": [], "scripts": {}, "seed": 24, "k": 4},
     {"template": [{"name": "c0", "stage": 0, "refs": [], "wa": {}},
                   {"name": "c1", "stage": 0, "refs": [0], "wa": {"replicate": 2, "shutdownOn": ["KnownIssue"]}},
                   {"name": "c2", "stage": 0, "refs": [1], "wa": {"aggregate": True}},
@@ -390,8 +448,16 @@ def run_n(ctx, n, k):
             ctx.tag("witness:C02W-reproduced-on-real-controller" if got == want
                     else "witness:C02W-NOT-reproduced (code changed? then retire the known finding)")
             ctx.extra["witness_C02W"] = {"expected": want, "observed": got}
+    kept = []
+    every = max(1, n // 6)
     for i in range(n):
-        check_group(ctx, gen_case(rng, k))
+        case = gen_case(rng, k)
+        runs = check_group(ctx, case)
+        if runs and i % every == 0 and len(kept) < (6 if n < 200 else 30):
+            kept.append((case, runs[-1]))
+    # a sample of the schedules is run again after all the unrelated workflows (same component names, other roles):
+    # the real Controller must answer the same (harness/c01.py rerun_later)
+    C01.rerun_later(ctx, kept)
 
 
 def run(ctx):
